@@ -662,3 +662,111 @@ def slot_set_model(ctx, rule):
     else:
         ctx.ok(rule, sa, sa.node, "slot-set model, %d cases (watched slot / unwatched slot / default x initialisation / another object / the identical object): stored once, "
                                   "watchers notified once iff the slot held a value before" % n)
+
+
+def sync_refs_async(ctx, rule):
+    """Parameters._sync_refs interpreted with an asynchronous link: parameter w follows a coroutine function bound to
+    S.a.  An event for S.a arrives (a) at an ordinary moment, (b) while w's own previous result is being delivered
+    (w is in the syncing set: a watcher of w assigned S.a), (c) while another parameter is being synced.
+
+    Specification: every time a dependency of the link changes, a new evaluation is scheduled exactly once, with the
+    awaitable resolved NOW -- whatever is being synced at that moment: the assignment made during delivery is the most
+    recent one, and its evaluation is what the parameter must end up with."""
+    from engine.absint import Interp, Obj, Unsupported
+    from engine.loader import AnalysisError
+    sr = ctx.repo.method(P + "Parameters", "_sync_refs")
+    problems, n = [], 0
+    for syncing in ([], ["w"], ["other"]):
+        S = Obj("source")
+        depw = Obj("dep_S_a", owner=S, name="a")
+        refw = Obj("async_ref_of_w")
+        awaitable = Obj("awaitable_for_current_inputs")
+        scheduled, updates = [], []
+
+        def hook(fn, args, kwargs):
+            if fn == "resolve_ref":
+                return [depw] if args and args[0] is refw else []
+            if fn == "resolve_value":
+                return awaitable
+            if fn == "inspect.isgeneratorfunction":
+                return False
+            if fn == "iscoroutinefunction":
+                return bool(args) and args[0] is refw
+            if fn in ("edit_constant", "_syncing"):
+                return Obj("scope")
+            if fn == "partial":
+                return Obj("partial", args=list(args))
+            if fn == "async_executor":
+                scheduled.append(args[0] if args else None)
+                return None
+            if fn.endswith(".update") and fn.startswith("self_"):
+                updates.append(args[0] if args else None)
+                return None
+            return NotImplemented
+        inst = Obj("target", _param__private=Obj("private", refs={"w": refw}, syncing=list(syncing), async_refs={}))
+        ns = Obj("ns", self=inst, _async_ref=Obj("bound__async_ref"), __getitem__={"w": Obj("param_w", nested_refs=False)})
+        it = Interp(ctx.hier, call_hook=hook, globals={"Skip": Obj("Skip"), "Undefined": Obj("Undefined")})
+        try:
+            outs = it.run_all(sr, {"self_": ns, "events": [Obj("event_a", obj=S, name="a")]})
+        except Unsupported as e:
+            raise AnalysisError("absint cannot interpret _sync_refs: %s -- %s cannot decide" % (e, rule))
+        if len(outs) != 1 or outs[0].imprecise or outs[0].kind != "return":
+            raise AnalysisError("absint imprecise on _sync_refs with an asynchronous link (%s) -- %s cannot decide" % (outs[0].notes[:2] if outs else "no outcome", rule))
+        n += 1
+        when = {"": "at an ordinary moment", "w": "while the link's own previous result is being delivered (a watcher of the parameter assigned the source)",
+                "other": "while another parameter is being synced"}["".join(syncing)]
+        ok = len(scheduled) == 1 and isinstance(scheduled[0], Obj) and len(scheduled[0].attrs.get("args", [])) == 3 and scheduled[0].attrs["args"][1] == "w" and scheduled[0].attrs["args"][2] is awaitable
+        if not ok:
+            problems.append("the source of an asynchronous link changes %s: %d evaluation(s) scheduled (%r), specification: exactly one, for the inputs as they are now -- the parameter ends up "
+                            "with the result of an older evaluation" % (when, len(scheduled), scheduled[:1]))
+        if any(isinstance(u, dict) and "w" in u for u in updates):
+            problems.append("the source of an asynchronous link changes %s: the awaitable itself is assigned to the parameter" % when)
+    ctx.abstract_cases += n
+    if problems:
+        ctx.fail(rule, sr, sr.node, "sync model (asynchronous link): %s (%d disagreeing case(s))" % (problems[0], len(problems)), key=sr.qualname + "::async-link-resync")
+    else:
+        ctx.ok(rule, sr, sr.node, "sync model: a change of an asynchronous link's source schedules exactly one new evaluation, whatever is being synced at that moment (%d cases)" % n)
+
+
+def instance_tested_by_identity(ctx, rule):
+    """Whether a namespace / descriptor is working for an instance or for the class is decided by `is None`, never by the
+    truth value of the instance: a Parameterized subclass may define __len__ or __bool__, and an empty (falsy) instance
+    is still an instance.  Flags every boolean-context use (if / while / conditional expression / and / or / not /
+    assert / comprehension filter) of `self_.self` (or a local alias of it) in class Parameters, and of the `obj`
+    argument in the descriptor methods of Parameter types."""
+    def bool_ctx(fn):
+        out = []
+        for n in ast.walk(fn):
+            if isinstance(n, (ast.If, ast.While, ast.IfExp, ast.Assert)):
+                out.append(n.test)
+            if isinstance(n, ast.BoolOp):
+                out += n.values
+            if isinstance(n, ast.UnaryOp) and isinstance(n.op, ast.Not):
+                out.append(n.operand)
+            if isinstance(n, ast.comprehension):
+                out += n.ifs
+        return out
+    n_funcs = 0
+    for g in ctx.repo.funcs.values():
+        if g.cls is None or not g.params:
+            continue
+        names, attr_of = set(), None
+        if g.cls.qualname == P + "Parameters":
+            attr_of = g.params[0]
+            for n in ast.walk(g.node):
+                if isinstance(n, ast.Assign) and isinstance(n.value, ast.Attribute) and n.value.attr == "self" and isinstance(n.value.value, ast.Name) and n.value.value.id == attr_of:
+                    names |= {t.id for t in n.targets if isinstance(t, ast.Name)}
+        elif ctx.facts.is_parameter_cls(g.cls.qualname) and g.name in ("__get__", "__set__", "_post_setter", "_relink") and "obj" in g.params:
+            names = {"obj"}
+        else:
+            continue
+        n_funcs += 1
+        hits = [e for e in bool_ctx(g.node) if (isinstance(e, ast.Name) and e.id in names)
+                or (attr_of and isinstance(e, ast.Attribute) and e.attr == "self" and isinstance(e.value, ast.Name) and e.value.id == attr_of)]
+        for e in hits:
+            ctx.fail(rule, g, e, "%s decides between the instance and the class by the truth value of the instance (`%s`): an instance of a class that defines __len__ / __bool__ is treated as "
+                                 "'no instance' while it is empty, so instance-level operations act on the class (or on the class-level Parameter)" % (g.qualname, norm(e)),
+                     key=g.qualname + "::instance-by-truthiness")
+        if not hits:
+            ctx.ok(rule, g, g.node, "instance tested by identity only")
+    ctx.require(n_funcs >= 40, "fewer than 40 namespace / descriptor functions examined (%d)" % n_funcs)
